@@ -54,6 +54,35 @@ fn families(rng: &mut impl Rng, n: usize, thorough: bool) -> Vec<(Vec<i64>, Vec<
     e[0] = 1;
     out.push((e.clone(), e.clone(), "unit"));
     out.push((vec![0i64; n], dense(rng, 5, n), "zero"));
+    // structured inputs: self-adjoint (a_i = -a_(n-i): purely real spectrum, what ffLDL splits), anti-self-adjoint, even-only,
+    // odd-only, constant, and monomials x^k * x^j (norms 1: the bound is absolute 2^-30, every twiddle is exercised)
+    {
+        let base = dense(rng, 3000, n);
+        let mut sa = base.clone();
+        let mut asa = base.clone();
+        for i in 1..n {
+            if i < n - i {
+                sa[n - i] = -base[i];
+                asa[n - i] = base[i];
+            }
+        }
+        if n >= 2 {
+            sa[n / 2] = 0;
+        }
+        asa[0] = 0;
+        out.push((sa, dense(rng, 100, n), "self-adjoint"));
+        out.push((asa, dense(rng, 100, n), "anti-self-adjoint"));
+        out.push(((0..n).map(|i| if i % 2 == 0 { base[i] } else { 0 }).collect(), dense(rng, 100, n), "even-only"));
+        out.push(((0..n).map(|i| if i % 2 == 1 { base[i] } else { 0 }).collect(), dense(rng, 100, n), "odd-only"));
+        out.push((vec![777i64; n], vec![-3i64; n], "constant"));
+        for (k, j) in [(1usize, n - 1), (n / 2, n / 2), (n - 1, n - 1), (n / 3, n / 5 + 1)] {
+            let mut a = vec![0i64; n];
+            let mut b = vec![0i64; n];
+            a[k % n] = 1;
+            b[j % n] = 1;
+            out.push((a, b, "monomials"));
+        }
+    }
     if thorough {
         for _ in 0..12 {
             out.push((dense(rng, 200, n), dense(rng, 200, n), "signing-range"));
